@@ -159,6 +159,11 @@ func randomProg(rng *rand.Rand, maxLen int, keyChangeP float64, maxN int) []PIte
 	n := 1 + rng.Intn(maxLen)
 	p := []PItem{}
 	hasChord := false
+	// half of the progressions modulate inside a pool of two or three keys (so that they return to a key they left)
+	keyPool := supportedKeys
+	if rng.Intn(2) == 0 {
+		keyPool = []string{supportedKeys[rng.Intn(28)], supportedKeys[rng.Intn(28)], "C"}[:2+rng.Intn(2)]
+	}
 	for i := 0; i < n; i++ {
 		it := PItem{Rest: rng.Intn(5) == 0}
 		if i == n-1 && !hasChord {
@@ -180,7 +185,7 @@ func randomProg(rng *rand.Rand, maxLen int, keyChangeP float64, maxN int) []PIte
 			it.Vals = append(it.Vals, fracPool[rng.Intn(len(fracPool))])
 		}
 		if rng.Float64() < keyChangeP {
-			it.Meta = append(it.Meta, [2]string{"key", supportedKeys[rng.Intn(len(supportedKeys))]})
+			it.Meta = append(it.Meta, [2]string{"key", keyPool[rng.Intn(len(keyPool))]})
 		}
 		if rng.Intn(6) == 0 {
 			it.Meta = append(it.Meta, [2]string{"bpm", fmt.Sprint(20 + rng.Intn(300))})
